@@ -1,0 +1,15 @@
+//go:build verif
+
+package sugardb
+
+import "github.com/echovault/sugardb/internal/verifhook"
+
+// verifPoint marks a failpoint / yield point (build tag "verif"; a no-op otherwise).
+func verifPoint(name string) { verifhook.Point(name, 0, nil) }
+
+// verifPointCmd is verifPoint with a database index and the bytes of a command.
+func verifPointCmd(name string, database int, data []byte) { verifhook.Point(name, database, data) }
+
+// VerifSetPointFunc installs the function called at every failpoint / yield point of the process
+// (nil removes it). It runs on the goroutine that reached the point and may block to park it.
+func VerifSetPointFunc(f func(name string, database int, data []byte)) { verifhook.Set(f) }
